@@ -1983,7 +1983,14 @@ func enableInlining(c *Ctx, env *symEnv, fd *ast.FuncDecl, skip map[*types.Func]
 			if !ok {
 				return nil
 			}
-			id, ok := ast.Unparen(sel.X).(*ast.Ident)
+			rx := ast.Unparen(sel.X)
+			// recv.embedded_.method(): the embedded private struct is part of the receiver
+			if es, ok := rx.(*ast.SelectorExpr); ok {
+				if f := selectorField(info, es); f != nil && f.Embedded() {
+					rx = ast.Unparen(es.X)
+				}
+			}
+			id, ok := rx.(*ast.Ident)
 			if !ok || !env.recvs[info.Uses[id]] {
 				return nil
 			}
